@@ -2430,8 +2430,13 @@ def check_timestamp(ctx, tu_src, tu_drv, lib_tus, analysed_names):
         ctx.undecided(R3, 'TimeStamp::%s type' % vname, 'type `%s` not recognised' % vals[0]['ct'], HDR_T)
     # nextValue may live in TimeStamp.cpp or inline in the header (then every unit has its body)
     bodies = [(t, f) for t in (tu_src, tu_drv) for f in t.fns(q=NEXT, dep=False) if t.cfg(f) is not None]
+    no_next = not bodies
+    if no_next:
+        # no nextValue() member: stamps are drawn where they are stored (renew(), the default member initialiser); renew() then
+        # anchors the identification of the counter, and all allocation sites are compared with each other
+        bodies = [(t, f) for t in (tu_src, tu_drv) for f in t.fns(q=RENEW, dep=False) if t.cfg(f) is not None]
     if not bodies:
-        ctx.broken('R-C19-3: %s has no body in %s or the driver unit' % (NEXT, SRC_T))
+        ctx.broken('R-C19-3: neither %s nor %s has a body in %s or the driver unit' % (NEXT, RENEW, SRC_T))
         return n
     tnx, fnext = bodies[0]
     in_header = len({id(t) for t, f in bodies}) > 1
@@ -2441,7 +2446,7 @@ def check_timestamp(ctx, tu_src, tu_drv, lib_tus, analysed_names):
         if x.get('kind') in CALLS:
             sd_, obj_, args_ = tnx.call_parts(x)
             o_ = tnx.strip(obj_, casts=True) if obj_ is not None else None
-            if o_ is not None and re.match(r'std::(__atomic_base|atomic)<', sd_.get('q', '')) and o_.get('kind') in ('DeclRefExpr', 'MemberExpr') \
+            if o_ is not None and re.match(r'std::(__atomic_base|atomic)<', sd_.get('q', '')) and o_.get('kind') == 'DeclRefExpr' \
                     and o_.get('referencedDecl', {}).get('kind', 'VarDecl') == 'VarDecl' and not tnx.enclosing_fn(tnx.node(o_.get('referencedDecl', {}).get('id')) or {'id': None}):
                 cref = cref or o_
         elif x.get('kind') in ('UnaryOperator', 'CompoundAssignOperator') and x.get('opcode') in ('++', '--', '+=') and tnx.kids(x):
@@ -2509,7 +2514,14 @@ def check_timestamp(ctx, tu_src, tu_drv, lib_tus, analysed_names):
     g = tu_src.cfg(fnext)
     inst = 'TimeStamp::nextValue'
     kbase = '%s|%s|TimeStamp::nextValue|' % (R3, tu_src.fn_file(fnext))
-    if g.back_edges():
+    if no_next:
+        for b_, i_, x_ in g.stmts():
+            a_ = atomic_call(tu_src, x_, is_global)
+            if a_ and a_[0] == 'rmw' and a_[1] == 1:
+                next_offsets.add(a_[1] if a_[2] == 'new' else 0)
+        ctx.ok(R3, 'TimeStamp allocation sites', 'no nextValue() member: every stamp is the result of an atomic increment of %s performed where it '
+               'is stored (renew(), default member initialiser); the sites are compared with each other below' % cname, tu_src.fn_loc(fnext))
+    elif g.back_edges():
         check_cas_loop(ctx, tu_src, fnext, g, R3, inst, kbase)
     else:
         problems, undec = [], []
@@ -2585,7 +2597,8 @@ def check_timestamp(ctx, tu_src, tu_drv, lib_tus, analysed_names):
                 ctx.undecided(R3, inst, u, tu_src.fn_loc(fnext))
         else:
             ctx.ok(R3, inst, 'returns the result of exactly one atomic increment of global', tu_src.fn_loc(fnext))
-    analysed_names.add(NEXT)
+    if not no_next:
+        analysed_names.add(NEXT)
     tu_src = tu_src_real
     # ---- members storing into value
     members = {}
@@ -2654,6 +2667,19 @@ def check_timestamp(ctx, tu_src, tu_drv, lib_tus, analysed_names):
     off0 = next_offsets.pop() if len(next_offsets) == 1 else None
     if off0 is None and conv0 is not None and not tnx.cfg(fnext).back_edges():
         conv0 = None
+    fdv = t0.node(vals[0]['id'])
+    for y_ in (t0.walk(init_exprs(t0, fdv)[-1]) if fdv is not None and init_exprs(t0, fdv) else ()):
+        a_ = atomic_call(t0, y_, is_global) if y_.get('id') and y_.get('kind') in CALLS else None
+        if a_ and a_[0] == 'rmw' and a_[1] >= 1:
+            so_ = a_[1] if a_[2] == 'new' else 0
+            if off0 is not None and so_ != off0:
+                bad = True
+                ctx.violation(R3, 'who-writes TimeStamp::global', 'the default member initialiser of TimeStamp::%s draws a stamp as the counter value '
+                              'before its increment %+d while the other allocation site hands out %+d: the two sites hand out the same number, '
+                              'stamps are not unique across them' % (vname, so_, off0), HDR_T,
+                              key='%s|%s|TimeStamp|allocation-sites-disagree' % (R3, HDR_T))
+            elif off0 is not None:
+                sites.append('default member initialiser of %s' % vname)
     for t in [tu_src, tu_drv] + list(lib_tus):
         for f in t.functions.values():
             if f['dep'] or t.cfg(f) is None:
